@@ -166,6 +166,12 @@ class Grid(object):
                 if pname in ["pixeltype", "byteorder",
                              "layout", "comment", "name"]:
                     pvalue = " ".join(line[1:]).strip().lower()
+                elif pname.startswith("nodata"):
+                    # Integer no data values are kept exact
+                    try:
+                        pvalue = int(line[1].strip())
+                    except ValueError:
+                        pvalue = float(line[1].strip())
                 elif pname.startswith("n") and not pname.startswith("nodata"):
                     pvalue = int(line[1].strip())
                 elif pname.startswith("parentgrid_n"):
@@ -542,6 +548,9 @@ class Grid(object):
                             "yllcorner", "cellsize"]:
                 attval = getattr(self, attname)
                 fh.write("{0:<14} {1}\n".format(attname.upper(), attval))
+
+            # no data value
+            fh.write("{0:<14} {1}\n".format("NODATA", self.nodata))
 
             # nbits
             ddtype = np.dtype(self.dtype)
